@@ -149,7 +149,8 @@ Inductive hres :=
 | HDone (n : Z) (s' : sess) (acts : list action) (e : option err)
 | HPanic (p : panic_kind).
 
-(* handlePolling: drains the receive queue; consumes headerSize whatever Length says *)
+(* consumeRecvQueue: hands every element that is in the receive queue to its stream (used by handlePolling and,
+   before they deliver their own item, by handleFallbackData and handleStreamClose) *)
 Fixpoint drain (q : list qelem) (s : sess) : sess * list action :=
   match q with
   | [] => (s, [])
@@ -162,6 +163,7 @@ Fixpoint drain (q : list qelem) (s : sess) : sess * list action :=
     let '(s3, a3) := drain r s2 in
     (s3, a1 ++ a2 ++ a3)
   end.
+(* handlePolling: drains the receive queue; consumes headerSize whatever Length says *)
 Definition handle_polling (s : sess) (h buf : list Z) : hres :=
   let '(s', acts) := drain (s_queue s) (with_queue s []) in
   HDone c_headerSize s' (APoll :: acts) None.
@@ -169,8 +171,10 @@ Definition handle_polling (s : sess) (h buf : list Z) : hres :=
 Definition handle_stream_close (s : sess) (h buf : list Z) : hres :=
   if zlen buf <? streamCloseIdLen then HStop
   else let id := be32 buf 0 in
-       let '(s', acts) := half_close s id in
-       HDone (c_headerSize + streamCloseIdLen) s' acts None.
+       (* the data the peer queued before it wrote this event comes first *)
+       let '(s0, a0) := drain (s_queue s) (with_queue s []) in
+       let '(s', acts) := half_close s0 id in
+       HDone (c_headerSize + streamCloseIdLen) s' (a0 ++ acts) None.
 
 (* handleFallbackData.  eventLen = int(h.Length()) (non-negative on 64 bit); payloadLen = eventLen - headerSize
    may be negative.  An event too short for seqID and status is rejected first (returns headerSize,
@@ -191,11 +195,13 @@ Definition handle_fallback (s : sess) (h buf : list Z) : hres :=
       let status := (be32 data 4) mod 256 in
       let body := skipn (Z.to_nat fallbackDataHeader) data in
       let a0 := [AFallback seqID status (zlen body)] in
-      let '(s1, found, a1) := get_stream s seqID status in
+      (* consumeRecvQueue before the socket item is handed to its stream *)
+      let '(sq, aq) := drain (s_queue s) (with_queue s []) in
+      let '(s1, found, a1) := get_stream sq seqID status in
       if found then
         let '(s2, a2) := stream_message s1 seqID status true body in
-        HDone eventLen s2 (a0 ++ a1 ++ a2) None
-      else HDone eventLen s1 (a0 ++ a1) None.
+        HDone eventLen s2 (a0 ++ aq ++ a1 ++ a2) None
+      else HDone eventLen s1 (a0 ++ aq ++ a1) None.
 
 (* handleHotRestart: a session without manager rejects the event; otherwise the lambda is only posted here, it runs
    after handleEvents returned (run_posted) *)
